@@ -11,8 +11,8 @@ from ..env import gfapy, GfapyError
 from ..runner import Part, Violation
 
 ID = "C13"
-RULE = ("part 'kinds' (exhaustive): every sequence of <= 3 (quick) / <= 4 (thorough) lines over 15 line kinds "
-        "{H, H VN:1.0, H VN:2.0, #, S gfa1, S gfa2, L, C, P, E, F, G, O, U, custom} x version parameter {none, "
+RULE = ("part 'kinds' (exhaustive): every sequence of <= 3 (quick) / <= 4 (thorough) lines over 16 line kinds "
+        "{H, H VN:1.0, H VN:2.0, #, S gfa1, S gfa2, L, C, P, E, F, G, O, U, custom, custom with a type of several characters that begins like a standard one (LN, PA, HX, SQ...)} x version parameter {none, "
         "gfa1, gfa2} x vlevel {0, 1, 2} (at level 0 a conflicting sequence that contains a VN header is not judged), plus the "
         "same sequences with repeated kinds spelled identically (two equal custom / comment / C / E / F / G lines), driven incrementally (Gfa() + add_line + process_line_queue) with strings and "
         "with gfapy.Line objects and, when every "
@@ -28,10 +28,12 @@ ASSUMPTIONS = [
     "with the rGFA dialect only S (with SN/SO/SR) and L (0M) lines are used, and at least one version-specific line is present",
 ]
 
-KINDS = ["H", "H1", "H2", "#", "S1", "S2", "L", "C", "P", "E", "F", "G", "O", "U", "X"]
+KINDS = ["H", "H1", "H2", "#", "S1", "S2", "L", "C", "P", "E", "F", "G", "O", "U", "X", "XX"]
 V1 = {"H1", "S1", "L", "C", "P"}
-V2 = {"H2", "S2", "E", "F", "G", "O", "U", "X"}
-QUEUED = {"L", "C", "P", "X", "#", "H"}  # not deciding by themselves when the version is unknown
+V2 = {"H2", "S2", "E", "F", "G", "O", "U", "X", "XX"}
+QUEUED = {"L", "C", "P", "X", "XX", "#", "H"}
+# custom record types of more than one character that begin with the letter of a standard record type
+LONG_TYPES = ["LN", "PA", "CT", "HX", "SQ", "EX", "GG", "OO", "UU", "FF", "H1", "S2"]  # not deciding by themselves when the version is unknown
 
 
 def make_line(kind, i, x, y, rgfa=False):
@@ -63,6 +65,8 @@ def make_line(kind, i, x, y, rgfa=False):
         return "O\to%d\t%s+" % (i, x)
     if kind == "U":
         return "U\tu%d\t%s" % (i, x)
+    if kind == "XX":
+        return "%s\tfield%d\txx:i:%d" % (LONG_TYPES[i % len(LONG_TYPES)], i, i)
     return "X\tfield%d" % i
 
 
@@ -96,7 +100,7 @@ def check_result(g, seq, want, ctx):
         raise Violation("queue-left", "%s: %d lines left in the queue" % (ctx, len(g._line_queue)))
 
 
-DUP_OK = {"#", "X", "C", "E", "F", "G"}  # records that may occur twice with the same text
+DUP_OK = {"#", "X", "XX", "C", "E", "F", "G"}  # records that may occur twice with the same text
 
 
 def _idx(seq, i, same):
